@@ -205,6 +205,7 @@ C16_Send(r) ==       \* a send reported successful wrote exactly the requested m
                /\ (addlp => (r.out[1].lp = 100 /\ Len(r.out[1].ats) = Len(r.rq.ats) + 1))
                /\ (~addlp => Len(r.out[1].ats) = Len(r.rq.ats))
                /\ \A k \in 1..Len(r.rq.ats) : InSeq(r.rq.ats[k], r.out[1].ats)
+               /\ (InSeq(5, r.rq.ats) => r.out[1].lp = r.rq.lp)          \* a requested LOCAL_PREF goes out as requested
 C16_Fail(r) ==       \* a send reported as failed wrote nothing
    (r.cls = "REST" /\ r.rq.cls = "send" /\ r.rest.ok # 1) => (r.out = <<>> /\ r.st = r.pst)
 C16_ValidSend(r) ==  \* a well-formed send request in Established is carried out
